@@ -36,6 +36,8 @@ type c12Input struct {
 	// token-level knowledge: when true the diagnostic position is checked
 	// against the harness's recogniser
 	TokenLevel bool
+	// DeepSet > 0: a valid Set whose two members are equal down to this depth
+	DeepSet int
 }
 
 var illegalChars = []string{"#", "@", "~", "$", ";"}
@@ -264,12 +266,30 @@ func stackMutations(t *simrt.Tape, in c12Input) c12Input {
 	return c12Input{Class: in.Class + "+stacked-mutations", Src: string(runes), Note: in.Note}
 }
 
+// deepSetInput: valid Sets whose two members are equal down to depth d; they
+// follow the huge-line inputs in every batch.
+var c12DeepSets = []struct {
+	d     int
+	inner string
+	multi bool
+}{{16, "List", false}, {17, "List", false}, {17, "Set", true}, {40, "List", true}}
+
+func deepSetInput(k int) c12Input {
+	c := c12DeepSets[k]
+	s := deepSetOf(c.d, c.inner, c.multi)
+	return c12Input{Class: "deep-set", Src: s.Text, Note: fmt.Sprintf("valid: a Set of two equal members nested %d levels", c.d), TokenLevel: true, DeepSet: c.d}
+}
+
 func (propC12) Run(ctx *Ctx, index int) {
 	in := genC12Input(ctx.Prog, ctx.Tier)
+	deepSet := false
 	if index < 4 {
 		in = hugeLineInput(index)
+	} else if index < 4+len(c12DeepSets) {
+		in = deepSetInput(index - 4)
+		deepSet = true
 	}
-	if ctx.Tier == "thorough" && ctx.Prog.Choose(3) == 2 {
+	if ctx.Tier == "thorough" && ctx.Prog.Choose(3) == 2 && !deepSet {
 		in = stackMutations(ctx.Prog, in)
 	}
 	ctx.Res.Desc = c12Desc{Class: in.Class, Source: in.Src, Note: in.Note}
@@ -348,6 +368,10 @@ func checkC12(ctx *Ctx, in c12Input, out *parseOutcome) {
 		}
 		m := diagRe.FindStringSubmatch(msg)
 		if m == nil {
+			if in.DeepSet > 16 && strings.Contains(msg, collatorDepthLimit) {
+				ctx.Violate("C12", "not-a-syntax-diagnostic", "set-members-equal-beyond-collator-depth-16", fmt.Sprintf("ParseSource(%s) panicked with text that is not a located syntax diagnostic: %s", q, firstLine(msg)))
+				return
+			}
 			ctx.Violate("C12", "not-a-syntax-diagnostic", normMsg(msg), fmt.Sprintf("ParseSource(%s) panicked with text that is not a located syntax diagnostic: %s", q, firstLine(msg)))
 			return
 		}
